@@ -159,7 +159,7 @@ Definition enc_item (k : item) (it : N * list byte) : list byte :=
 Fixpoint insert_item (it : N * list byte) (l : list (N * list byte)) : list (N * list byte) :=
   match l with
   | [] => [it]
-  | x :: r => if fst x <=? fst it then x :: insert_item it r else it :: l
+  | x :: r => if fst x <? fst it then x :: insert_item it r else it :: l   (* stable, like Vec::sort_by: an equal key stays behind *)
   end.
 Definition sort_items (l : list (N * list byte)) : list (N * list byte) := fold_right insert_item [] l.
 
